@@ -29,6 +29,7 @@ def op_configs(tier):
         add("segregating, one sample with %d experiments" % n, op="segr", fam="L%d" % n, R=n + 2, pmax=5, fixed_rng=True)
     add("pairwise D", op="pair", fam="D", R=4 if q else 6)
     add("pairwise H (single-agent rows for the last sample only)", op="pair", fam="H", R=6 if q else 7)
+    add("pairwise P (five samples, all pairs of four drugs: more samples than treatment groups)", op="pair", fam="P", R=30, fixed_rng=True)
     add("merge-min C", op="mergemin", fam="C", R=6 if q else 7, pmax=6)
     add("merge-min A", op="mergemin", fam="A", R=5, pmax=4)
     add("top-bottom C", op="topbottom", fam="C", R=6 if q else 7)
